@@ -29,6 +29,11 @@ class StochHooks(Hooks):
         self.state0 = None
         self.by_call = {}      # call signature without seed -> {seed: digest}
         self.first = {}
+        self.held = {}         # result id -> digest: frames the callers still hold
+
+    def on_dirty(self, it, tid):
+        if tid in self.held:
+            self.held[tid] = it.dig(it.store[tid])      # the caller itself wrote into a frame it holds
 
     def before(self, it, i, ev):
         self.pending_fresh = fresh.describe_call(it, ev) if (ev.get('t', {}).get('fresh') and ev['fn'] in SEEDED) else None
@@ -39,6 +44,16 @@ class StochHooks(Hooks):
         fn = ev['fn']
         tag = ev.get('t', {})
         k = ev.get('k', {})
+        # a frame a caller still holds is the draw it asked for, whatever is drawn afterwards (by anybody)
+        for rid, d0 in self.held.items():
+            if rid in it.store and it.dig(it.store[rid]) != d0:
+                it.probe('check:held')
+                it.violate('C18.repro', {'fn': it.meta.get(rid, {}).get('fn', '?'), 'what': 'earlier-result-changed'},
+                           'a frame returned earlier by %s (store id %s) changed during a later %s' % (it.meta.get(rid, {}).get('fn', '?'), rid, fn), i)
+                self.held[rid] = it.dig(it.store[rid])
+        if out.ok and ev.get('id') and (fn in SEEDED or fn == 'cosmic_rays'):
+            self.held[ev['id']] = it.dig(out.value)
+            it.probe('check:held')
         if fn in SEEDED:
             it.probe('check:isolated')
             if _rng_state() != self.rng0:
